@@ -821,11 +821,6 @@ package multiplex
 //@   ensures ret0 == 0
 //@ func (*UnlimitedValve).Nullify
 //@   ensures ret0 == 0 && ret1 == 0
-// (no modifies clause: the frame obligations say these four change nothing at all)
-//@ func (*UnlimitedValve).AddRx
-//@ func (*UnlimitedValve).AddTx
-//@ func (*UnlimitedValve).rxWait
-//@ func (*UnlimitedValve).txWait
 
 // closeSession (C12 teardown): at most one caller wins the CAS; under streamsM every stream that is
 // still open is marked closed, its receive buffer is closed (blocked readers wake, see the pipes'
